@@ -7,6 +7,7 @@ package main
 
 import (
 	"bytes"
+	"context"
 	"encoding/json"
 	"fmt"
 	"sort"
@@ -28,6 +29,7 @@ type c17Mon struct {
 
 func attachC17(m *Mon, every int) {
 	c := &c17Mon{m: m, every: every}
+	m.c17 = c
 	m.extra = append(m.extra, func(sc *StepCtx) {
 		if sc.Idx >= 0 && (sc.Idx+1)%everyFor(sc, c.every, 2) == 0 {
 			c.sample(sc)
@@ -100,7 +102,14 @@ func truthRequest(s *Snap, id string) (types.Request, bool) {
 		RequestContextId: cr.RequestContextId, RequestContextBatchCounter: cr.RequestContextBatchCounter}, true
 }
 
-func (c *c17Mon) sample(sc *StepCtx) {
+func (c *c17Mon) sample(sc *StepCtx) { c.sampleVia(sc, false) }
+
+// sampleVia: with abciRouted (commit-mode histories, right after a Commit) both query
+// interfaces are asked the way a client asks a node - through the application's ABCI Query
+// endpoint on the committed state: gRPC methods by their service path through the gRPC query
+// router the application registered (module.go RegisterQueryService), legacy routes as
+// "custom/service/<route>" through baseapp's query router.
+func (c *c17Mon) sampleVia(sc *StepCtx, abciRouted bool) {
 	m := c.m
 	w := sc.run.w
 	s := sc.Post
@@ -111,6 +120,19 @@ func (c *c17Mon) sample(sc *StepCtx) {
 	legacy := keeper.NewQuerier(k, amino)
 	if routed := w.a.app.QueryRouter().Route(types.QuerierRoute); routed != nil && sc.Idx%2 == 0 {
 		legacy = routed // the querier as the application registered it (module.go)
+	}
+	var q types.QueryServer = k
+	if abciRouted {
+		cctx := w.clientCtx()
+		q = clientAsServer{types.NewQueryClient(cctx)}
+		legacy = func(_ sdk.Context, path []string, req abci.RequestQuery) ([]byte, error) {
+			res := w.a.app.Query(abci.RequestQuery{Path: "custom/" + types.QuerierRoute + "/" + strings.Join(path, "/"), Data: req.Data})
+			if !res.IsOK() {
+				return nil, fmt.Errorf("%s", res.Log)
+			}
+			return res.Value, nil
+		}
+		m.stats.Hits["C17/asked-through-abci-query"]++
 	}
 	lq := func(route string, params interface{}) ([]byte, error) {
 		var data []byte
@@ -174,7 +196,7 @@ func (c *c17Mon) sample(sc *StepCtx) {
 	for _, n := range nameList {
 		d, exists := s.Defs[n]
 		judge("definition", fmt.Sprintf("exists%v", exists))
-		res, err := k.Definition(gctx, &types.QueryDefinitionRequest{ServiceName: n})
+		res, err := q.Definition(gctx, &types.QueryDefinitionRequest{ServiceName: n})
 		lres, lerr := lq(types.QueryDefinition, types.QueryDefinitionParams{ServiceName: n})
 		if exists {
 			if err != nil || res.ServiceDefinition == nil || !bytes.Equal(pbz(res.ServiceDefinition), pbz(&d)) {
@@ -207,7 +229,7 @@ func (c *c17Mon) sample(sc *StepCtx) {
 		}
 		judge("bindings-of-service", fmt.Sprintf("n%d", minInt(len(want), 4)))
 		m.hit("C15", "listing-by-service", fmt.Sprintf("n%d", minInt(len(want), 4)))
-		res, err := k.Bindings(gctx, &types.QueryBindingsRequest{ServiceName: n})
+		res, err := q.Bindings(gctx, &types.QueryBindingsRequest{ServiceName: n})
 		var got [][]byte
 		if err == nil {
 			for _, b := range res.ServiceBindings {
@@ -237,7 +259,7 @@ func (c *c17Mon) sample(sc *StepCtx) {
 			m.hit("C15", "listing-by-service-and-owner", fmt.Sprintf("n%d", minInt(len(wantO), 3)))
 			var resO *types.QueryBindingsResponse
 			var errO error
-			if pan, _ := guard(func() { resO, errO = k.Bindings(gctx, &types.QueryBindingsRequest{ServiceName: n, Owner: o}) }); pan != "" {
+			if pan, _ := guard(func() { resO, errO = q.Bindings(gctx, &types.QueryBindingsRequest{ServiceName: n, Owner: o}) }); pan != "" {
 				bad("bindings-of-service-and-owner", "grpc-panic", "gRPC bindings(%s, owner) panicked: %s", n, pan)
 				continue
 			}
@@ -262,7 +284,7 @@ func (c *c17Mon) sample(sc *StepCtx) {
 			p := provs[pk]
 			b, exists := s.Bindings[bkey(n, p)]
 			judge("binding", fmt.Sprintf("exists%v/plen%d", exists, minInt(len(p), 21)))
-			res, err := k.Binding(gctx, &types.QueryBindingRequest{ServiceName: n, Provider: p})
+			res, err := q.Binding(gctx, &types.QueryBindingRequest{ServiceName: n, Provider: p})
 			if exists {
 				if err != nil || res.ServiceBinding == nil || !bytes.Equal(pbz(res.ServiceBinding), pbz(&b)) {
 					bad("binding", "grpc", "gRPC binding(%s,%x) differs from the stored record (err %v)", n, []byte(p), err)
@@ -291,7 +313,7 @@ func (c *c17Mon) sample(sc *StepCtx) {
 			}
 			if exists || len(wantR) > 0 {
 				judge("pending-requests-of-binding", fmt.Sprintf("n%d", minInt(len(wantR), 3)))
-				rres, rerr := k.Requests(gctx, &types.QueryRequestsRequest{ServiceName: n, Provider: p})
+				rres, rerr := q.Requests(gctx, &types.QueryRequestsRequest{ServiceName: n, Provider: p})
 				var gotR [][]byte
 				if rerr == nil {
 					for _, r := range rres.Requests {
@@ -325,7 +347,7 @@ func (c *c17Mon) sample(sc *StepCtx) {
 			}
 		}
 		judge("earned-fees", fmt.Sprintf("pos%v/plen%d/longer-with-same-prefix%d", !want.IsZero(), minInt(len(p), 21), minInt(related, 2)))
-		res, err := k.EarnedFees(gctx, &types.QueryEarnedFeesRequest{Provider: p})
+		res, err := q.EarnedFees(gctx, &types.QueryEarnedFeesRequest{Provider: p})
 		if err != nil {
 			if !want.IsZero() {
 				bad("earned-fees", "grpc-error", "gRPC fees(%x) fails (%v) although the provider has %s", []byte(p), err, want)
@@ -352,7 +374,7 @@ func (c *c17Mon) sample(sc *StepCtx) {
 			want = unhex(a)
 		}
 		judge("withdraw-address", fmt.Sprintf("set%v", !bytes.Equal(want, o)))
-		res, err := k.WithdrawAddress(gctx, &types.QueryWithdrawAddressRequest{Owner: o})
+		res, err := q.WithdrawAddress(gctx, &types.QueryWithdrawAddressRequest{Owner: o})
 		if err != nil || !bytes.Equal(res.WithdrawAddress, want) {
 			bad("withdraw-address", "grpc", "gRPC withdraw-address(%.8s) = %x, want %x", hexs(o), []byte(res.GetWithdrawAddress()), []byte(want))
 		}
@@ -373,7 +395,7 @@ func (c *c17Mon) sample(sc *StepCtx) {
 	for _, id := range ctxIDs {
 		rc, exists := s.Contexts[id]
 		judge("request-context", fmt.Sprintf("exists%v/st%d", exists, rc.State))
-		res, err := k.RequestContext(gctx, &types.QueryRequestContextRequest{RequestContextId: unhex(id)})
+		res, err := q.RequestContext(gctx, &types.QueryRequestContextRequest{RequestContextId: unhex(id)})
 		if exists {
 			if err != nil || res.RequestContext == nil || !bytes.Equal(pbz(res.RequestContext), pbz(&rc)) {
 				bad("request-context", "grpc", "gRPC context(%.16s) differs from the stored record (err %v)", id, err)
@@ -437,7 +459,7 @@ func (c *c17Mon) sample(sc *StepCtx) {
 				}
 			}
 			judge("requests-of-batch", fmt.Sprintf("n%d/cur%v", minInt(len(wantR), 3), bn == rc.BatchCounter))
-			rres, rerr := k.RequestsByReqCtx(gctx, &types.QueryRequestsByReqCtxRequest{RequestContextId: unhex(id), BatchCounter: bn})
+			rres, rerr := q.RequestsByReqCtx(gctx, &types.QueryRequestsByReqCtxRequest{RequestContextId: unhex(id), BatchCounter: bn})
 			var gotR [][]byte
 			if rerr == nil {
 				for _, r := range rres.Requests {
@@ -454,7 +476,7 @@ func (c *c17Mon) sample(sc *StepCtx) {
 				}
 			}
 			judge("responses-of-batch", fmt.Sprintf("n%d", minInt(len(wantP), 3)))
-			pres, perr := k.Responses(gctx, &types.QueryResponsesRequest{RequestContextId: unhex(id), BatchCounter: bn})
+			pres, perr := q.Responses(gctx, &types.QueryResponsesRequest{RequestContextId: unhex(id), BatchCounter: bn})
 			var gotP [][]byte
 			if perr == nil {
 				for _, r := range pres.Responses {
@@ -490,7 +512,7 @@ func (c *c17Mon) sample(sc *StepCtx) {
 	for _, rid := range rids {
 		r, exists := truthRequest(s, rid)
 		judge("request", fmt.Sprintf("exists%v", exists))
-		res, err := k.Request(gctx, &types.QueryRequestRequest{RequestId: unhex(rid)})
+		res, err := q.Request(gctx, &types.QueryRequestRequest{RequestId: unhex(rid)})
 		if exists {
 			if err != nil || res.Request == nil || !bytes.Equal(pbz(res.Request), pbz(&r)) {
 				bad("request", "grpc", "gRPC request(%.24s..) differs from the request reconstructed from the stored records (err %v): got %v want %v", rid, err, res.GetRequest(), r)
@@ -507,7 +529,7 @@ func (c *c17Mon) sample(sc *StepCtx) {
 		}
 		resp, rexists := s.Responses[rid]
 		judge("response", fmt.Sprintf("exists%v", rexists))
-		pres, perr := k.Response(gctx, &types.QueryResponseRequest{RequestId: unhex(rid)})
+		pres, perr := q.Response(gctx, &types.QueryResponseRequest{RequestId: unhex(rid)})
 		if rexists {
 			if perr != nil || pres.Response == nil || !bytes.Equal(pbz(pres.Response), pbz(&resp)) {
 				bad("response", "grpc", "gRPC response(%.24s..) differs from the stored record (err %v)", rid, perr)
@@ -526,7 +548,7 @@ func (c *c17Mon) sample(sc *StepCtx) {
 
 	// ---- params, schema ----
 	judge("params", "")
-	pr, perr := k.Params(gctx, &types.QueryParamsRequest{})
+	pr, perr := q.Params(gctx, &types.QueryParamsRequest{})
 	if perr != nil || !bytes.Equal(pbz(&pr.Params), pbz(&s.Params)) {
 		bad("params", "grpc", "gRPC params differ from the parameters in force")
 	}
@@ -543,7 +565,7 @@ func (c *c17Mon) sample(sc *StepCtx) {
 		case "result":
 			want = types.ResultSchema
 		}
-		sr, serr := k.Schema(gctx, &types.QuerySchemaRequest{SchemaName: sn})
+		sr, serr := q.Schema(gctx, &types.QuerySchemaRequest{SchemaName: sn})
 		ls, lserr := lq(types.QuerySchema, types.QuerySchemaParams{SchemaName: sn})
 		if want == "" {
 			if serr == nil || lserr == nil {
@@ -567,4 +589,48 @@ func everyFor(sc *StepCtx, every, dense int) int {
 		return dense
 	}
 	return every
+}
+
+// clientAsServer lets the differential ask a gRPC query client (whose calls travel through the
+// application's ABCI Query endpoint) with the same code that asks the keeper directly.
+type clientAsServer struct{ c types.QueryClient }
+
+func (a clientAsServer) Definition(_ context.Context, r *types.QueryDefinitionRequest) (*types.QueryDefinitionResponse, error) {
+	return a.c.Definition(context.Background(), r)
+}
+func (a clientAsServer) Binding(_ context.Context, r *types.QueryBindingRequest) (*types.QueryBindingResponse, error) {
+	return a.c.Binding(context.Background(), r)
+}
+func (a clientAsServer) Bindings(_ context.Context, r *types.QueryBindingsRequest) (*types.QueryBindingsResponse, error) {
+	return a.c.Bindings(context.Background(), r)
+}
+func (a clientAsServer) WithdrawAddress(_ context.Context, r *types.QueryWithdrawAddressRequest) (*types.QueryWithdrawAddressResponse, error) {
+	return a.c.WithdrawAddress(context.Background(), r)
+}
+func (a clientAsServer) RequestContext(_ context.Context, r *types.QueryRequestContextRequest) (*types.QueryRequestContextResponse, error) {
+	return a.c.RequestContext(context.Background(), r)
+}
+func (a clientAsServer) Request(_ context.Context, r *types.QueryRequestRequest) (*types.QueryRequestResponse, error) {
+	return a.c.Request(context.Background(), r)
+}
+func (a clientAsServer) Requests(_ context.Context, r *types.QueryRequestsRequest) (*types.QueryRequestsResponse, error) {
+	return a.c.Requests(context.Background(), r)
+}
+func (a clientAsServer) RequestsByReqCtx(_ context.Context, r *types.QueryRequestsByReqCtxRequest) (*types.QueryRequestsByReqCtxResponse, error) {
+	return a.c.RequestsByReqCtx(context.Background(), r)
+}
+func (a clientAsServer) Response(_ context.Context, r *types.QueryResponseRequest) (*types.QueryResponseResponse, error) {
+	return a.c.Response(context.Background(), r)
+}
+func (a clientAsServer) Responses(_ context.Context, r *types.QueryResponsesRequest) (*types.QueryResponsesResponse, error) {
+	return a.c.Responses(context.Background(), r)
+}
+func (a clientAsServer) EarnedFees(_ context.Context, r *types.QueryEarnedFeesRequest) (*types.QueryEarnedFeesResponse, error) {
+	return a.c.EarnedFees(context.Background(), r)
+}
+func (a clientAsServer) Schema(_ context.Context, r *types.QuerySchemaRequest) (*types.QuerySchemaResponse, error) {
+	return a.c.Schema(context.Background(), r)
+}
+func (a clientAsServer) Params(_ context.Context, r *types.QueryParamsRequest) (*types.QueryParamsResponse, error) {
+	return a.c.Params(context.Background(), r)
 }
